@@ -15,8 +15,20 @@ LEVEL_NOTE = ("After the fix: commit for D1 (relaxed miss followed by further co
               "the mirror lean/Anytree/Model/Resolver.lean and Str.lean (Python str.split/startswith modelled; str.upper modelled on "
               "ASCII only - ignorecase with non-ASCII names is CPython's case mapping and outside the model); the theorems about "
               "absolute/relative paths are stated on component lists plus a split/join lemma for separator-free names.")
-THEOREMS = []
-NOT_COVERED = []
+THEOREMS = [
+    ("Anytree.Props.C07.getLoop_eq_walk", "full"),
+    ("Anytree.Props.C07.get_eq_spec", "full"),
+    ("Anytree.Props.C07.get_relaxed", "full"),
+    ("Anytree.Props.C07.walk_error_class", "full"),
+    ("Anytree.Props.C07.walk_down", "full"),
+    ("Anytree.Props.C07.walk_up", "full"),
+    ("Anytree.Props.C07.walk_append", "full"),
+    ("Anytree.Props.C07.walk_relParts", "full"),
+    ("Anytree.Props.C07.walk_absParts", "full"),
+    ("Anytree.Props.C07.cmp_refl", "full"),
+    ("Anytree.Props.C07.split_join_single", "full"),
+]
+NOT_COVERED = ["get(m, absolute/relative path *string*) = n is proved on component lists (walk_absParts, walk_relParts) plus split_join_single for single-character separators; multi-character separators and the junction with get_eq_spec for whole path strings are exercised by the correspondence run only; ignorecase on non-ASCII names is outside the model"]
 PREDICATE_SPEC = True
 RULE = ("every ordered pair (m, n) of every shape up to N nodes (quick 5, thorough 6) with sibling-unique names: absolute path of n and "
         "the Walker-relative path from m, all four ignorecase x relax combinations; random paths of up to 4/6 components over names, "
